@@ -300,6 +300,9 @@ func (x *Exec) appendOp(st *State, fr *Frame, cc *CallCtx) Val {
 		res.Cap = Ite(inPlace, s.Cap, fcap)
 		if !isLit(inPlace, "false") {
 			res.Ref = x.define(st, "apref", res.Ref)
+			if st.Fresh[s.Ref.S] || st.PostEntry[s.Ref.S] {
+				st.PostEntry[res.Ref.S] = true
+			}
 			if s.Ref.S != "0" {
 				// keep freshness knowledge only when statically fresh
 			}
@@ -340,19 +343,18 @@ func (x *Exec) appendOp(st *State, fr *Frame, cc *CallCtx) Val {
 		for _, cp := range cs {
 			name := elemPrefix(et) + cp.Suffix
 			inner := arrSort(SInt, cp.Sort)
-			a := x.heapCur(st, name, arrSort(SInt, inner))
 			row := x.fresh(st, "aprow", inner)
 			// row agrees with old contents below len(s)
 			i := "i!" + strconv.Itoa(x.uniq())
-			oldRow := Select(a, s.Ref, inner)
+			oldRow := x.readRow(st, name, inner, s.Ref)
 			st.addCmd(fmt.Sprintf("(assert (forall ((%s Int)) (! (=> (and (<= 0 %s) (< %s %s)) (= (select %s (+ %s %s)) (select %s (+ %s %s)))) :pattern ((select %s (+ %s %s))))))",
 				i, i, i, s.Len.S, row.S, res.Off.S, i, oldRow.S, s.Off.S, i, row.S, res.Off.S, i))
 			// and with the appended slice above
-			addRow := Select(a, add.Ref, inner)
+			addRow := x.readRow(st, name, inner, add.Ref)
 			j := "j!" + strconv.Itoa(x.uniq())
 			st.addCmd(fmt.Sprintf("(assert (forall ((%s Int)) (! (=> (and (<= 0 %s) (< %s %s)) (= (select %s (+ %s (+ %s %s))) (select %s (+ %s %s)))) :pattern ((select %s (+ %s (+ %s %s)))))))",
 				j, j, j, n.S, row.S, res.Off.S, s.Len.S, j, addRow.S, add.Off.S, j, row.S, res.Off.S, s.Len.S, j))
-			x.heapSet(st, name, StoreT(a, res.Ref, row))
+			x.writeRow(st, name, inner, res.Ref, row)
 		}
 		x.fwdDropPrefix(st, elemPrefix(et))
 		return res
@@ -363,12 +365,11 @@ func (x *Exec) appendOp(st *State, fr *Frame, cc *CallCtx) Val {
 	for ci, cp := range cs {
 		name := elemPrefix(et) + cp.Suffix
 		inner := arrSort(SInt, cp.Sort)
-		a := x.heapCur(st, name, arrSort(SInt, inner))
 		var row Term
 		if isLit(s.Off, "0") || isLit(inPlace, "true") {
-			row = Select(a, s.Ref, inner)
+			row = x.readRow(st, name, inner, s.Ref)
 		} else {
-			oldRow := Select(a, s.Ref, inner)
+			oldRow := x.readRow(st, name, inner, s.Ref)
 			shifted := x.fresh(st, "shrow", inner)
 			i := "i!" + strconv.Itoa(x.uniq())
 			st.addCmd(fmt.Sprintf("(assert (forall ((%s Int)) (! (=> (and (<= 0 %s) (< %s %s)) (= (select %s %s) (select %s (+ %s %s)))) :pattern ((select %s %s)))))",
@@ -383,7 +384,7 @@ func (x *Exec) appendOp(st *State, fr *Frame, cc *CallCtx) Val {
 			}
 			row = StoreT(row, Add(res.Off, Add(s.Len, IntT(k))), ev)
 		}
-		x.heapSet(st, name, StoreT(a, res.Ref, row))
+		x.writeRow(st, name, inner, res.Ref, row)
 	}
 	x.fwdDropPrefix(st, elemPrefix(et))
 	return res
@@ -429,18 +430,17 @@ func (x *Exec) copyOp(st *State, fr *Frame, cc *CallCtx) Val {
 	for _, cp := range comps(et) {
 		name := elemPrefix(et) + cp.Suffix
 		inner := arrSort(SInt, cp.Sort)
-		a := x.heapCur(st, name, arrSort(SInt, inner))
-		srcRow := Select(a, src.Ref, inner)
-		dstRow := Select(a, dst.Ref, inner)
+		srcRow := x.readRow(st, name, inner, src.Ref)
+		dstRow := x.readRow(st, name, inner, dst.Ref)
 		if dst.Len.S == src.Len.S && isLit(dst.Off, "0") && isLit(src.Off, "0") && isLit(Eq(dst.Len, dst.Cap), "true") {
-			x.heapSet(st, name, StoreT(a, dst.Ref, srcRow))
+			x.writeRow(st, name, inner, dst.Ref, srcRow)
 			continue
 		}
 		row := x.fresh(st, "cprow", inner)
 		i := "i!" + strconv.Itoa(x.uniq())
 		st.addCmd(fmt.Sprintf("(assert (forall ((%s Int)) (! (= (select %s %s) (ite (and (<= %s %s) (< %s (+ %s %s))) (select %s (+ %s (- %s %s))) (select %s %s))) :pattern ((select %s %s)))))",
 			i, row.S, i, dst.Off.S, i, i, dst.Off.S, n.S, srcRow.S, src.Off.S, i, dst.Off.S, dstRow.S, i, row.S, i))
-		x.heapSet(st, name, StoreT(a, dst.Ref, row))
+		x.writeRow(st, name, inner, dst.Ref, row)
 	}
 	x.fwdDropPrefix(st, elemPrefix(et))
 	return scalar(n, intT)
@@ -504,6 +504,9 @@ func (x *Exec) applyContract(st *State, fr *Frame, ct *Contract, fn *ssa.Functio
 	}
 	x.evalLets(st, old, ct, env)
 	for _, rq := range ct.Requires {
+		if len(rq.Props) > 0 && !rq.forProp(x.Prop) {
+			continue
+		}
 		x.obligeParts(st, old, nil, ct, rq.E, env, x.obName(fr, "pre."+ct.Key+"."+clauseLabel(rq)+"."+cc.Site))
 		st.assume(x.evalExprBool(st, old, nil, rq.E, env))
 	}
@@ -591,8 +594,12 @@ func (x *Exec) verifyBody() {
 		env := x.paramEnv(st, fr)
 		x.evalLets(st, x.Old, ct, env)
 		for _, rq := range ct.Requires {
+			if len(rq.Props) > 0 && !rq.forProp(x.Prop) {
+				continue
+			}
 			g := x.evalExprBool(st, x.Old, fr, rq.E, env)
 			st.assume(g)
+			x.notePostEntry(st, fr, rq.E)
 		}
 		// vacuity guard: the precondition must be satisfiable
 		x.oblige(st, x.TopKey+"#cover.requires", BoolT(true), "cover")
@@ -718,8 +725,23 @@ func (x *Exec) goalParts(ct *Contract, e Expr) []Expr {
 }
 
 func (x *Exec) obligeParts(st *State, old *State, fr *Frame, ct *Contract, e Expr, env map[string]Val, name string) {
-	for _, part := range x.goalParts(ct, e) {
-		g := x.evalExprBool(st, old, fr, part, env)
+	parts := x.goalParts(ct, e)
+	var goals []Term
+	okAll := true
+	for _, part := range parts {
+		v, err := x.evalExpr(&evalCtx{x: x, st: st, old: old, env: env, fr: fr}, part)
+		if err != nil || v.K != VScalar || v.T.Sort != SBool {
+			// a conjunct that guards a later one may have been split off: prove the clause as a whole
+			okAll = false
+			break
+		}
+		goals = append(goals, v.T)
+	}
+	if !okAll {
+		x.oblige(st, name, x.evalExprBool(st, old, fr, e, env), "prove")
+		return
+	}
+	for _, g := range goals {
 		x.oblige(st, name, g, "prove")
 	}
 }
